@@ -61,8 +61,9 @@ def run(ctx: Ctx) -> None:
         outer_sorted = False
         if isinstance(v, ast.Call) and isinstance(v.func, ast.Name) and v.func.id == "sorted" and len(v.args) == 1 and not v.keywords:
             v, outer_sorted = v.args[0], True
-        if isinstance(v, ast.Call) and isinstance(v.func, ast.Name) and v.func.id == "list" and len(v.args) == 1 and isinstance(v.args[0], ast.GeneratorExp):
-            v = v.args[0]
+        while isinstance(v, ast.Call) and isinstance(v.func, ast.Name) and v.func.id == "list" and len(v.args) == 1 and not v.keywords \
+                and isinstance(v.args[0], (ast.GeneratorExp, ast.ListComp)):
+            v = v.args[0]  # list(<rows>) of a generator / of a list that was just built: those rows
         if not isinstance(v, (ast.ListComp, ast.GeneratorExp)) or len(v.generators) != 1:
             return f, None, None
         return f, v.generators[0].iter, (outer_sorted, v)
